@@ -15,6 +15,7 @@ import (
 
 // C29: TrackLocalStaticRTP bind/unbind/write histories through the public API
 // with fake TrackLocalContexts whose TrackLocalWriters capture what they get.
+// Suite "inflight" (c29_inflight.go): Unbind/Bind while a write is parked inside a writer, direct oracle only.
 
 type c29Pkt struct {
 	Marker  bool     `json:"m"`
